@@ -24,6 +24,8 @@ func main() {
 		cmdDump(os.Args[2:])
 	case "check":
 		cmdCheck(os.Args[2:])
+	case "infer":
+		cmdInfer(os.Args[2:])
 	default:
 		fmt.Fprintln(os.Stderr, "unknown command", os.Args[1])
 		os.Exit(2)
@@ -153,6 +155,24 @@ func cmdSweep(args []string) {
 	}
 }
 
+func solveAllSel(vcs []*VC, sel func(*Obligation) bool, tmo int) {
+	var wg sync.WaitGroup
+	sem := make(chan struct{}, runtime.NumCPU())
+	for _, vc := range vcs {
+		if len(vc.obls) == 0 {
+			continue
+		}
+		wg.Add(1)
+		sem <- struct{}{}
+		go func(vc *VC) {
+			defer wg.Done()
+			defer func() { <-sem }()
+			vc.SolveSel(sel, tmo, false)
+		}(vc)
+	}
+	wg.Wait()
+}
+
 func solveAll(vcs []*VC, tmo int, esc bool) {
 	var wg sync.WaitGroup
 	sem := make(chan struct{}, runtime.NumCPU())
@@ -171,7 +191,3 @@ func solveAll(vcs []*VC, tmo int, esc bool) {
 	wg.Wait()
 }
 
-func cmdCheck(args []string) {
-	fmt.Fprintln(os.Stderr, "not implemented yet")
-	os.Exit(2)
-}
